@@ -15,6 +15,10 @@ RULE = ("random modules (Hypothesis) plus the systematic boundary catalogue (int
 SYN = ["der", "uper", "oer"]
 
 KNOWN_CLASSES = {
+    # der_encoder.c: ASN1_DER_MAX_TAGS_COUNT 4 ("System limit on tags count")
+    "tagchain.four-or-more.der": lambda f, s: "tagchain>=4" in f,
+    # by-design guard against compression bombs: > 200 zero-width elements are refused by the PER/OER decoders
+    "zero-width-elements.over-200.per-oer": lambda f, s: s in ("uper", "oer") and "zero-width>200" in f,
     "bitstring.trailing-zero-bits.uper": lambda f, s: s == "uper" and "bits.trailing0" in f,
     "int.ub-above-int64.uper": lambda f, s: s == "uper" and "int.ub>int64" in f,
     "from.sparse-above-255.uper": lambda f, s: s == "uper" and "from.sparse>255" in f,
@@ -61,7 +65,7 @@ def run_case(sess, mod, tname, t, v, feats, acc):
     refder = ref_ber.encode(mod, t, v)
     want = {}
     for s in SYN:
-        k = known_skip(vfeats, s)
+        k = known_skip(vfeats, s) if not getattr(acc, "probe", False) else None
         if k:
             acc.excluded["known:" + k] += 1
             continue
